@@ -45,7 +45,7 @@ TERMINAL = ("done", "failed", "cancelled")
 
 
 def g_consts(n, bounds, modes, fixed):
-    return {"N": n, "Bounds": _aio.tla_set(bounds), "Modes": _aio.tla_set(modes), "Fixed": "TRUE" if fixed else "FALSE"}
+    return {"N": n, "Bounds": _aio.tla_set(bounds), "Modes": _aio.tla_set(modes), "Fixed": "TRUE" if fixed else "FALSE", "Wrapper": "FALSE"}
 
 
 def o_consts(n, bounds, scripts):
@@ -265,6 +265,30 @@ def run(ctx):
         else:
             ctx.sample({"kind": "counterexample-of-as-is-design-not-reproducible", "invariant": inv, "actions": acts,
                         "diverges": {k: info[k] for k in ("at", "action") if k in info}})
+    # ---- (2b) bounded_gather(parallelism = p), the wrapper that creates the semaphore itself: in the model of the wrapper as it
+    #      stood (no permit held around bounded_gather2) p + 1 tasks hold the semaphore at once; replayed on the real wrapper
+    csw = dict(g_consts(3, (1, 2), ("return", "raise"), True), Wrapper="TRUE")
+    (wd / "GW_cex.cfg").write_text(tlc.mk_cfg(constants=csw, invariants=["C20_Bound"]))
+    wres = tlc.run(wd, "Gather", "GW_cex.cfg", workers=1)
+    ctx.add_tlc(wres, "Gather Wrapper=TRUE (bounded_gather without a permit of its own): search for a counter-example to C20_Bound")
+    if not wres.violations:
+        raise RuntimeError("discrimination lost: C20_Bound holds on the model of the permit-less wrapper")
+    cex = wres.violations[0]
+    st0 = tlc.tlaval.to_py(cex.trace[0][1])
+    ok, info = _aio.replay_trace(cex.trace, lambda: _gather.GatherImpl(utils, 3, st0["bound"], st0["mode"], wrapper=True), _gather.gather_apply,
+                                 lambda i: i.project(), _gather.gather_view)
+    acts = [h for h, _ in cex.trace[1:]]
+    cex_info["C20_Bound(wrapper)"] = {"length": len(cex.trace), "actions": acts, "replays_on_real_helper": ok}
+    if ok:
+        final = info["final"]
+        ctx.violation("prop:C20_Bound:bounded_gather-runs-parallelism-plus-one",
+                      {"tlc_counterexample": acts, "parallelism": st0["bound"], "final_state_of_real_helper": final,
+                       "tasks_inside_the_semaphore": [t for t, x in final["tpc"].items() if x in ("run", "res_ok", "res_fail", "canc_run")],
+                       "explanation": "bounded_gather(parallelism=p) creates Semaphore(p) and calls bounded_gather2 without holding a permit; "
+                                      "WithoutSemaphore.__aenter__ releases a permit that was never acquired, so p + 1 partial functions run at once"})
+    else:
+        ctx.sample({"kind": "counterexample-of-permit-less-wrapper-not-reproducible", "actions": acts,
+                    "diverges": {k: info[k] for k in ("at", "action") if k in info}})
     ctx.cov["as_is_design_counterexamples"] = cex_info
 
     # ---- (3) B1 --------------------------------------------------------------------------------------------------------
